@@ -14,6 +14,8 @@ mod c14;
 mod c15;
 mod c16;
 mod c17;
+mod c18;
+mod c19;
 
 use mccore::*;
 
@@ -41,7 +43,7 @@ macro_rules! modules {
         }
     };
 }
-modules!(c05, c06, c08, c10, c14, c15, c16, c17);
+modules!(c05, c06, c08, c10, c14, c15, c16, c17, c18, c19);
 
 fn main() {
     let args: Vec<String> = std::env::args().skip(1).collect();
